@@ -38,12 +38,12 @@ CLAIMED = {
     "C05": dict(
         technique="property-based testing (Hypothesis) against an independent reference model of the published U/B/tau rules, evaluated as predicates over the observed step after every round (ledger-derived, ties left free)",
         text="Exploration: after every round of every generated history the U-value of every reachable cell is recomputed from the raw reward ledger with reference formulas written from the published pseudo-code (admissible t+ set for the lazy HCT/VHCT schedule), the B recursion is checked exactly on every non-root cell, and every pull's root-to-cell path is checked step by step (maximal sibling B, stop rule with reference thresholds).",
-        note="c1*delta <= 1/2 (delta~ caps inactive); values to rel. 1e-9, ceil arguments within 1e-9 of an integer accept both sides; the root's B-value is exempt.",
+        note="rounds in which one of the code's two delta~ caps can still be active (t+ < 2 c1 delta: at most the first few) are not judged; values to rel. 1e-9, ceil arguments within 1e-9 of an integer accept both sides; the root's B-value is exempt.",
         ref="4/C05"),
     "C06": dict(
         technique="property-based testing (Hypothesis): make_children calls observed per partition instance and judged per round against the reference expansion rule (T-HOO depth bound, HCT/VHCT thresholds)",
         text="Exploration: every expansion of every generated run is attributed to its round; at most one per round, under the pulled cell, only if it was a leaf, new cells pristine; expansion happens if and only if the reference rule says so (either reading accepted where the published text is ambiguous).",
-        note="c1*delta <= 1/2; t+(t) vs t+(t+1) and VHCT variance before/after the reward are both accepted; ceil arguments within 1e-9 accept both sides.",
+        note="rounds with t+ < 2 c1 delta (a delta~ cap may be active) are not judged; t+(t) vs t+(t+1) and VHCT variance before/after the reward are both accepted; ceil arguments within 1e-9 accept both sides.",
         ref="4/C06"),
     "C07": dict(
         technique="property-based testing (Hypothesis) with a harness-kept ledger of (cell, point, reward) and per-learner / per-phase scores; the recommendation is judged against the ledger, with reward laws weighted towards negative, tied and constant values",
